@@ -37,7 +37,12 @@ var Analyzer = SCAnalyzer.Analyzer
 var mathPowQ = pattern.MustParse(`(CallExpr (Symbol "math.Pow") [x (IntegerLiteral n)])`)
 
 func run(pass *analysis.Pass) (any, error) {
-	for node, matcher := range code.Matches(pass, mathPowQ) {
+	for c := range code.Cursor(pass).Preorder((*ast.CallExpr)(nil)) {
+		node := c.Node()
+		matcher, ok := code.Match(pass, mathPowQ, node)
+		if !ok {
+			continue
+		}
 		x := matcher.State["x"].(ast.Expr)
 		if code.MayHaveSideEffects(pass, x, nil) {
 			continue
@@ -102,6 +107,13 @@ func run(pass *analysis.Pass) (any, error) {
 			replacement = &ast.CallExpr{
 				Fun:  &ast.Ident{Name: "float64"},
 				Args: []ast.Expr{replacement},
+			}
+		}
+		if _, ok := replacement.(*ast.BinaryExpr); ok {
+			switch c.Parent().Node().(type) {
+			case *ast.BinaryExpr, *ast.UnaryExpr:
+				// '1 / math.Pow(x, 2)' is '1 / (x * x)', not '1 / x * x'.
+				replacement = &ast.ParenExpr{X: replacement}
 			}
 		}
 		report.Report(pass, node, "could expand call to math.Pow",
